@@ -1,10 +1,12 @@
 package main
 
 import (
+	"bufio"
 	"bytes"
 	"io"
 	"strconv"
 	"strings"
+	"testing/iotest"
 
 	"pault.ag/go/debian/control"
 )
@@ -29,6 +31,19 @@ func showParas(ps []control.Paragraph) string {
 
 type rawPara struct {
 	control.Paragraph
+}
+
+// chunkReader hands out at most n bytes per Read
+type chunkReader struct {
+	r io.Reader
+	n int
+}
+
+func (c *chunkReader) Read(p []byte) (int, error) {
+	if len(p) > c.n {
+		p = p[:c.n]
+	}
+	return c.r.Read(p)
 }
 
 func readAll(text string) ([]control.Paragraph, error) {
@@ -63,6 +78,61 @@ func init() {
 			return "err"
 		}
 		return "ok " + showParas(ps)
+	}
+	// rsrc variant text: the document arrives through a source that is not a plain in-memory reader - one byte per
+	// Read, half the buffer per Read, the last bytes together with io.EOF, chunks of 7 bytes, or a caller-made
+	// bufio.Reader with the smallest buffer.  How the bytes are chunked must not matter.
+	ops["rsrc"] = func(a []string) string {
+		var src io.Reader = strings.NewReader(arg(a, 1))
+		switch arg(a, 0) {
+		case "onebyte":
+			src = iotest.OneByteReader(src)
+		case "half":
+			src = iotest.HalfReader(src)
+		case "dataerr":
+			src = iotest.DataErrReader(src)
+		case "chunk7":
+			src = &chunkReader{r: src, n: 7}
+		case "bufio16":
+			src = bufio.NewReaderSize(src, 16)
+		}
+		r, err := control.NewParagraphReader(src, nil)
+		if err != nil {
+			return "err"
+		}
+		ps, err := r.All()
+		if err != nil {
+			if len(ps) != 0 {
+				return "err-with-value"
+			}
+			return "err"
+		}
+		return "ok " + showParas(ps)
+	}
+	// rbufio text: the caller's own *bufio.Reader, used for two readers in a row (Reset in between)
+	ops["rbufio"] = func(a []string) string {
+		br := bufio.NewReader(strings.NewReader(arg(a, 0)))
+		one := func() string {
+			r, err := control.NewParagraphReader(br, nil)
+			if err != nil {
+				return "err"
+			}
+			ps, err := r.All()
+			if err != nil {
+				if len(ps) != 0 {
+					return "err-with-value"
+				}
+				return "err"
+			}
+			return "ok " + showParas(ps)
+		}
+		first := one()
+		br.Reset(strings.NewReader(arg(a, 0)))
+		second := one()
+		if first != second {
+			return "differ " + first + " | " + second
+		}
+		return first
 	}
 	ops["rnext"] = func(a []string) string {
 		r, err := control.NewParagraphReader(strings.NewReader(arg(a, 0)), nil)
@@ -179,6 +249,54 @@ func init() {
 			return "update-results-share-state"
 		}
 		return shown
+	}
+	// wrepeat text k: every paragraph of the document becomes ONE value of a struct that embeds the paragraph and has
+	// two fields of its own (one in the paragraph's order already when the document has it, one never); each value is
+	// encoded k times in a row through ONE encoder.  Encoding does not wear a value out: the text must be what encoding
+	// k fresh copies gives, and it must read back as k paragraphs per value.
+	ops["wrepeat"] = func(a []string) string {
+		type extended struct {
+			control.Paragraph
+			Extra  string `control:"X-Extra"`
+			Source string
+		}
+		ps, err := readAll(arg(a, 0))
+		if err != nil {
+			return "err"
+		}
+		k, _ := strconv.Atoi(arg(a, 1))
+		mk := func(p control.Paragraph) *extended {
+			c := control.Paragraph{Order: append([]string{}, p.Order...), Values: map[string]string{}}
+			for key, v := range p.Values {
+				c.Values[key] = v
+			}
+			return &extended{Paragraph: c, Extra: "added later", Source: "set-by-hand"}
+		}
+		var worn, fresh bytes.Buffer
+		e1, err1 := control.NewEncoder(&worn)
+		e2, err2 := control.NewEncoder(&fresh)
+		if err1 != nil || err2 != nil {
+			return "encode-err"
+		}
+		for _, p := range ps {
+			v := mk(p)
+			for i := 0; i < k; i++ {
+				if err := e1.Encode(v); err != nil {
+					return "encode-err"
+				}
+				if err := e2.Encode(mk(p)); err != nil {
+					return "encode-err"
+				}
+			}
+		}
+		if worn.String() != fresh.String() {
+			return "diff " + hx(worn.String()) + " " + hx(fresh.String())
+		}
+		back, err := readAll(worn.String())
+		if err != nil {
+			return "reread-err"
+		}
+		return "same " + strconv.Itoa(len(back))
 	}
 	ops["wpara"] = func(a []string) string {
 		p := control.Paragraph{Order: []string{}, Values: map[string]string{}}
